@@ -255,3 +255,35 @@ def make_hermitian(A):
 
 def seeds():
     return st.integers(0, 2 ** 32 - 1)
+
+
+# ----------------------------------------------------------------------------
+# long dimensions: sizes that cross the usual blocking / chunking thresholds (32, 64, 128, 256, 512).  Thousands of
+# entries drawn one by one through Hypothesis would be the whole budget, so the entries come from a PRNG seeded with
+# a DRAWN integer (the case stores the matrix itself, replay does not depend on the PRNG); values are dyadic
+# (multiples of 1/32 in [-4, 4]) so the exact rational oracles stay cheap.
+
+LONG_DIMS = (33, 63, 64, 65, 100, 127, 129, 200, 255, 256, 257, 300, 511, 513, 600)
+
+
+@st.composite
+def long_dim(draw, cap=None):
+    dims = [d for d in LONG_DIMS if cap is None or d <= cap]
+    return draw(st.sampled_from(dims)) + draw(st.sampled_from([0, 0, 1, 3]))
+
+
+@st.composite
+def long_qarray(draw, m, n, pattern=None):
+    """(m,n,4) dyadic array from a PRNG seeded with a drawn integer; patterns generic / int / sparse / pure_imag."""
+    if pattern is None:
+        pattern = draw(st.sampled_from(["generic", "generic", "int", "sparse", "pure_imag"]))
+    rng = np.random.RandomState(draw(seeds()))
+    if pattern == "int":
+        A = rng.randint(-4, 5, size=(m, n, 4)).astype(float)
+    else:
+        A = rng.randint(-128, 129, size=(m, n, 4)).astype(float) / 32.0
+    if pattern == "sparse":
+        A = A * (rng.rand(m, n) < 0.3)[..., None]
+    elif pattern == "pure_imag":
+        A[..., 0] = 0.0
+    return np.ascontiguousarray(A), "long:" + pattern
